@@ -37,7 +37,8 @@ ASSUMPTIONS = ["trusted base: vf.engines.netsim.SimTransport records transport w
 SHARDS = {"quick": 4, "thorough": 16}
 FLOORS = {"peer_comparisons": 2000, "wire_checks": 200, "iac_data_bytes": 500, "lf_data_bytes": 300,
           "writesequence_calls": 100, "splits_inside_escape_pair": 200,
-          "session_peer_comparisons": 2000, "session_commands_sent": 1000, "echo_comparisons": 2000, "refusals_observed": 500}
+          "session_peer_comparisons": 2000, "session_commands_sent": 1000, "echo_comparisons": 2000, "refusals_observed": 500,
+          "session_commands_option_0xff": 100, "session_commands_option_command_valued": 200}
 READY = True
 
 KNOWN_WS = "telnet-writesequence-unescaped"
@@ -319,15 +320,19 @@ def gen_session(rng, total):
     """ops: write / seq as before plus ("will"|"do", option) and ("neg", option, payload) calls made by
     the sending application between the writes (each option used once, so every call reaches the wire)."""
     ops = gen_ops(rng, total)
-    opts = rng.sample(range(1, 120), 6)
+    # option codes are opaque bytes: also 0xff (EXOPL == IAC) and command-valued ones
+    opts = list(dict.fromkeys(rng.sample([0xFF, 0xFF, 0xFB, 0xFD, 0xFE, 0xF0, 0xFA, 0, 10, 13], 3) + rng.sample(range(256), 5)))[:6]
+    rng.shuffle(opts)
     out = []
     for op in ops:
         while opts and rng.random() < 0.35:
             o = bytes([opts.pop()])
             r = rng.random()
+            if o == b"\xff" and r >= 0.6:
+                r = 0.3  # (a subnegotiation "about" byte of 0xff cannot be framed: requestNegotiation does not escape it)
             out.append(("will", o) if r < 0.3 else ("do", o) if r < 0.6 else ("neg", o, gen_bytes(rng, rng.randint(0, 12)).replace(b"\r", b"A")))
         out.append(op)
-    if opts and rng.random() < 0.5:
+    if opts and opts[-1] != 0xFF and rng.random() < 0.5:
         out.append(("neg", bytes([opts.pop()]), gen_bytes(rng, rng.randint(0, 6))))
     return out
 
@@ -357,6 +362,8 @@ def session_case(ctx, ops, rng, cuts=None):
     ctx.evaluated()
     ctx.count("session_cases")
     ctx.count("session_commands_sent", len(expected))
+    ctx.count("session_commands_option_0xff", sum(1 for o in ops if o[0] in ("will", "do") and o[1] == b"\xff"))
+    ctx.count("session_commands_option_command_valued", sum(1 for o in ops if o[0] in ("will", "do", "neg") and 0xF0 <= o[1][0] < 0xFF))
     ctx.distinct(("session", tuple((o[0],) + tuple(bytes(x) if isinstance(x, bytes) else tuple(x) for x in o[1:]) for o in ops)))
     if cuts is not None:
         plans = [[wire[i:j] for i, j in zip([0] + cuts, cuts + [len(wire)])]]
